@@ -25,6 +25,7 @@ DOC = {
  "C13.R6": "siblings agree: the five route_message bodies (choose -> enqueue | Backlog(job)); the two supervision arms of the factory; the limiter wrapper returns RateLimited(job) without consulting the inner router",
  "C13.R7": "worker_complete dispatches the next job only when the completion matched an in-flight key; worker_finished_job retires a draining worker only if it is not working, otherwise keeps it; routes more work only to non-draining workers",
  "C13.R9": "Factory::post_stop hands every waiting job to the discard handler with reason Shutdown: the factory queue (Queue::pop_front cycle) and each worker's private queue (taken through a WorkerProperties helper or directly)",
+ "C13.R10": "= C15.R7: pool and actor->wid index are updated together (a worker the index does not know is never replaced, its queued jobs are stranded)",
  "C13.R8": "= C15.R5: Drained only when all of pool.values() (unfiltered) are available and the queue is empty; the factory stops itself only on is_drained()",
 }
 
@@ -423,9 +424,37 @@ def r9(run, db):
             if x.matches(r"mem::take$|VecDeque::<T, A>::drain$|VecDeque::<T, A>::pop_front$") and WQ in fq_names(f, x.args[0]):
                 src_worker = True
     run.check(src_factory, "post_stop|factory-queue-discarded", "every job left in the factory queue is handed to the discard handler (Shutdown)", "post_stop does not discard the factory queue", f.where())
+    # ... and unconditionally: whatever the router says about where it queues, a worker's private queue can hold jobs
+    # (sticky hand-overs of a factory-queueing router, retained jobs of a dying worker)
+    if src_worker:
+        some_edges = []
+        for site, t in f.switches():
+            info = f.switch_info(site)
+            if info.get("kind") == "enum" and "Some" in info["edges"] and any("discard_handler" in str(e) or True for e in [1]):
+                roots = f.origins(info["disc_place"]) if info.get("disc_place") else []
+                names = [proj_field_name(e) for r in roots for e in r.get("proj", []) + r.get("trail", []) if e.startswith("f:")]
+                if any(n and "discard" in n for n in names):
+                    some_edges.append((site.bb, info["edges"]["Some"]))
+        wq_sites = []
+        for c in f.calls():
+            if (c.callee in takers) or (c.resolved in takers) or (c.matches(r"mem::take$|VecDeque::<T, A>::drain$|VecDeque::<T, A>::pop_front$") and WQ in fq_names(f, c.args[0])):
+                # the iterator over the pool that feeds this call
+                for r in f.origins(c.args[0], through=lambda cc: 0 if cc.matches(r"Iterator::next$|Iterator>::next$|IntoIterator>::into_iter$|IntoIterator::into_iter$|DerefMut>::deref_mut$|Deref>::deref$") else None):
+                    if r["k"] == "call" and r["call"].matches(r"HashMap::<K, V, S, A>::(values_mut|iter_mut|values|iter|drain)$"):
+                        wq_sites.append(r["call"].site)
+        run.anchor("handler-present edges in post_stop", len(some_edges), 1, f.where())
+        good = bool(wq_sites) and all(all_paths_from_edge_pass(f, e, wq_sites) for e in some_edges)
+        run.check(good, "post_stop|worker-queues-discarded-unconditionally", "whenever a discard handler is installed, every path through post_stop walks the workers' private queues",
+                  "the disposal of the workers' private queues is conditional (e.g. skipped for factory-queueing routers): a sticky router parks jobs in a busy worker's private queue although it reports is_factory_queueing(); those jobs vanish at stop", f.where())
     run.check(src_worker, "post_stop|worker-queues-discarded", "every job left in a worker's private queue is handed to the discard handler (Shutdown)",
               "post_stop discards only the factory's own queue: jobs that were accepted and are waiting in a worker's private queue (field `%s`; every non-factory-queueing router, sticky hand-overs) are dropped with the state -- never handled, never discarded, never returned" % WQ, f.where())
 
+
+def r10(run, db):
+    """= C15.R7: `jobs queued for a worker that dies are given to its replacement` needs the factory to recognise the dead
+    actor: every worker entered in the pool is entered in the actor->wid index (and leaves both together)"""
+    from . import c15
+    c15.r7(run, db)
 
 def r8(run, db):
     """= C15.R5: the factory stops itself only when drained, and drained means every worker still in the pool is idle"""
@@ -433,7 +462,7 @@ def r8(run, db):
     c15.r5(run, db)
 
 
-RULES = [{"id": "C13.R%d" % i, "fn": f, "quick": Q, "thorough": TH} for i, f in enumerate([r1, r2, r3, r4, r5, r6, r7, r8, r9], 1)]
+RULES = [{"id": "C13.R%d" % i, "fn": f, "quick": Q, "thorough": TH} for i, f in enumerate([r1, r2, r3, r4, r5, r6, r7, r8, r9, r10], 1)]
 from .etype import witness_rule
 RULES.append({"id": "C13.W", "fn": witness_rule(['W4JobNoClone', 'W6JobMoved']), "quick": [], "thorough": [], "no_db": True})
 DOC["C13.W"] = 'E-TYPE witnesses W4 (Job::clone is E0599) and W6 (use of a job after moving it into a dispatch message is E0382)'
